@@ -1,7 +1,10 @@
 // FLAVOURS: asan
 // C09 — ownership invariants survive any API history (explicit-state search, implementation = transition relation).
 // Machine "variables": variables moved between / removed from components, with structurally identical look-alikes.
-#include "xstate.hpp"
+#include "c09_flat.hpp"
+#include "c09_forest.hpp"
+#include "c09_equiv.hpp"
+#include "c09_badargs_entries.hpp"
 
 using namespace vf;
 
@@ -231,8 +234,20 @@ int main(int argc, char **argv)
     ExploreLimits q, t;
     q.maxDepth = 64;
     t.maxDepth = 64;
+    ExploreLimits d5 = q, d6 = t;
+    d5.maxDepth = 5;
+    d6.maxDepth = 6;
     std::vector<Family> fs = {
         machineFamily<VarWorld>("variables", q, t),
+        machineFamily<c09::ForestWorld>("forest", q, t),
+        machineFamily<c09::FlatWorld<c09::UnitsTraits>>("units", q, t),
+        machineFamily<c09::FlatWorld<c09::ResetTraits<false>>>("resets", q, t),
+        machineFamily<c09::FlatWorld<c09::ResetTraits<true>>>("resets-full", q, t),
+        machineFamily<c09::EqWorld<4, c09::EQ_CORE>>("equivalences", q, t),
+        machineFamily<c09::EqWorld<3, c09::EQ_IDS>>("equivalence-ids", q, t),
+        machineFamily<c09::EqWorld<3, c09::EQ_LIFE>>("equivalence-lifetime", q, t),
+        machineFamily<c09::EqWorld<4, c09::EQ_LIFE>>("equivalence-lifetime4", d5, d6), // 4 variables: depth-bounded (fixpoint is > 4e5 states)
     };
+    fs.push_back(c09b::badargFamily());
     return harnessMain(argc, argv, fs);
 }
